@@ -36,7 +36,7 @@ type stats struct {
 	exactChecked, removeWithSub, removeStarSurvives, resetSeen, staticRound, dynamicRound      bool
 	modelAmbiguous, backdated, richNames, sleptWithACL, parkedInsideFeed, removeReaddRace      bool
 	startedWhileInsideFeed, mixedEnc, nilPath, perPathOrigins, rpcDeadline, walkParkedInInsert bool
-	aclFlipped, oddTargetNames                                                                 bool
+	aclFlipped, oddTargetNames, updatesOnlyRound                                               bool
 	skippedSteps, maxBulk, maxOnceLeaves                                                       int
 }
 
@@ -86,6 +86,7 @@ func (s *stats) labels() []string {
 	add(s.richNames, "names-with-common-string-prefix-or-slash")
 	add(s.sleptWithACL, "quiet-period-with-acl")
 	add(s.aclFlipped, "grant-changed-while-streams-were-open")
+	add(s.updatesOnlyRound, "once-or-poll-round-with-updates-only")
 	add(s.oddTargetNames, "target-names-with-glob-character-case-twins-or-separators")
 	add(s.maxBulk > 32, "bulk-update>32")
 	add(s.maxBulk > 64, "bulk-update>64")
@@ -1943,7 +1944,7 @@ func (w *world) checkOncePoll(s *subState, out []sent, drained bool) {
 	}
 	trailing := cur
 	rejected := s.ended && s.retErr != nil
-	if s.patErr {
+	if s.patErr && !s.spec.UpdatesOnly { // (with updates_only there is no walk, hence nothing that completes the paths)
 		if !s.ended && drained {
 			w.failf("C05", "subscription %d has an invalid prefix/path origin combination but the RPC did not end", s.i)
 		}
@@ -2009,7 +2010,14 @@ func (w *world) checkOncePoll(s *subState, out []sent, drained bool) {
 				w.failf("C05", "step %d: %s subscription %d (patterns %q) was sent %q which matches none of its paths", w.step, s.spec.Mode, s.i, s.patterns, ku)
 			}
 		}
-		if !s.writesDuring {
+		if s.spec.UpdatesOnly {
+			// updates_only on ONCE/POLL: every request is answered with the sync response alone (gNMI
+			// specification 3.5.1.2; the statement's "every matching leaf" is about requests without it)
+			if len(got) > 0 {
+				w.failf("C05", "step %d: %s subscription %d with updates_only: round %d carried %d leaves, want the sync response alone (in every round alike)", w.step, s.spec.Mode, s.i, len(rounds), len(got))
+			}
+			w.st.updatesOnlyRound = true
+		} else if !s.writesDuring {
 			if d := diffMaps(s.snapshot, got); d != "" {
 				w.failf("C05", "step %d: %s subscription %d (target %s, patterns %q) round %d against an unchanging cache: %s", w.step, s.spec.Mode, s.i, s.target, s.patterns, len(rounds), d)
 				w.failf("C07", "step %d: %s subscription %d: snapshot of authorised targets wrong: %s", w.step, s.spec.Mode, s.i, d)
